@@ -34,7 +34,7 @@ ALT = "" if REPO == "/repo" else "-" + hashlib.sha256(REPO.encode()).hexdigest()
 # harness crate whose path dependency points at that tree, with its own build slots
 HARNESS = HARNESS_SRC if not ALT else os.path.join(WORK, "harness" + ALT)
 CACHE = os.path.join(WORK, "cache")
-LOGS = os.path.join(WORK, "logs" + ("" if os.environ.get("VERIF_REPO", "/repo") == "/repo" else "-alt"))
+LOGS = os.path.join(WORK, "logs" + ALT)  # per tree under test: concurrent evaluations of seeded trees must not share log files
 REPLAYS = os.path.join(VERIF, "replays")
 EVID = os.path.join(VERIF, "evidence") if os.environ.get("VERIF_REPO", "/repo") == "/repo" else os.path.join(VERIF, ".work", "evidence-alt")
 GUARD = "ebml_iterable_verif"
